@@ -109,4 +109,97 @@ example : (matchAgainst ⟨⟨false, 1⟩, 100, 10, .sell, 1, .gtc, .reserve 200
 example : (matchAgainst ⟨⟨false, 1⟩, 100, 10, .sell, 1, .gtc, .pegged (-3) .midPrice⟩ 7).updated =
     some ⟨⟨false, 1⟩, 100, 3, .sell, 1, .gtc, .pegged (-3) .midPrice⟩ := by decide
 
+/-! ### The tranche helper `refresh_iceberg` (order_type.rs:342-407)
+
+The crate exports the step "show a new tranche taken from hidden quantity" on its own. The statements
+below hold for every order and every refresh amount; `C05_match_is_refresh_*` says the replenish steps of
+`match_against` are this helper applied to the capped amount, so the two cannot drift apart unnoticed. -/
+
+/-- the full rule of the helper (`C05.refreshOk`, also evaluated on the real crate's results) -/
+theorem C05_refresh_rule (o : Order) (n : Nat) :
+    C05.refreshOk o n (o.refresh n).1 (o.refresh n).2 = true := by
+  obtain ⟨id, price, vis, side, ts, tif, kind⟩ := o
+  cases kind <;>
+    simp [C05.refreshOk, Order.refresh, Order.sameIdentity, Kind.sameParams, Kind.hasHidden, Order.hid,
+      Kind.hidden] <;> omega
+
+/-- what is used is the smaller of the hidden quantity and the amount asked for -/
+theorem C05_refresh_used (o : Order) (n : Nat) : (o.refresh n).2 = if o.kind.hasHidden then min o.hid n else 0 := by
+  obtain ⟨id, price, vis, side, ts, tif, kind⟩ := o
+  cases kind <;> simp [Order.refresh, Kind.hasHidden, Order.hid, Kind.hidden] <;> omega
+
+/-- hidden quantity is conserved: what is left plus what was used is what there was -/
+theorem C05_refresh_hidden_conserved (o : Order) (n : Nat) : (o.refresh n).1.hid + (o.refresh n).2 = o.hid := by
+  obtain ⟨id, price, vis, side, ts, tif, kind⟩ := o
+  cases kind <;> simp [Order.refresh, Order.hid, Kind.hidden] <;> omega
+
+/-- the display shown afterwards is the amount asked for — so it is covered by hidden quantity exactly when
+    the caller caps the amount (`n ≤ hidden`), which is what `match_against` does -/
+theorem C05_refresh_covered (o : Order) (n : Nat) (hk : o.kind.hasHidden = true) (hn : n ≤ o.hid) :
+    (o.refresh n).1.vis = (o.refresh n).2 ∧ (o.refresh n).1.vis + (o.refresh n).1.hid = o.hid := by
+  obtain ⟨id, price, vis, side, ts, tif, kind⟩ := o
+  cases kind <;> simp [Kind.hasHidden] at hk <;>
+    simp [Order.refresh, Order.hid, Kind.hidden] at hn ⊢ <;> omega
+
+/-- id, price, side, timestamp, time-in-force and type parameters never change -/
+theorem C05_refresh_identity (o : Order) (n : Nat) : o.sameIdentity (o.refresh n).1 = true := by
+  obtain ⟨id, price, vis, side, ts, tif, kind⟩ := o
+  cases kind <;> simp [Order.refresh, Order.sameIdentity, Kind.sameParams]
+
+/-- the plain variants are returned unchanged -/
+theorem C05_refresh_plain (o : Order) (n : Nat) (hk : o.kind.hasHidden = false) : o.refresh n = (o, 0) := by
+  obtain ⟨id, price, vis, side, ts, tif, kind⟩ := o
+  cases kind <;> simp [Kind.hasHidden] at hk <;> simp [Order.refresh]
+
+/-- an exhausted iceberg's new tranche is the helper applied to `min hidden display` -/
+theorem C05_match_is_refresh_iceberg (o : Order) (q h : Nat) (hk : o.kind = .iceberg h) (hq : o.vis ≤ q)
+    (hh : 0 < h) :
+    (matchAgainst o q).updated = some (o.refresh (min h o.vis)).1 ∧
+      (matchAgainst o q).hiddenRed = (o.refresh (min h o.vis)).2 := by
+  obtain ⟨id, price, vis, side, ts, tif, kind⟩ := o
+  simp at hk; subst hk
+  simp [matchAgainst, Order.refresh, hq, hh] <;> omega
+
+/-- an exhausted auto-replenishing reserve order's refill is the helper applied to the capped amount -/
+theorem C05_match_is_refresh_reserve (o : Order) (q h thr : Nat) (amt : Option Nat)
+    (hk : o.kind = .reserve h thr amt true) (hq : o.vis ≤ q) (hh : 0 < h) :
+    (matchAgainst o q).updated = some (o.refresh (min (amt.getD defaultReplenish) h)).1 ∧
+      (matchAgainst o q).hiddenRed = (o.refresh (min (amt.getD defaultReplenish) h)).2 := by
+  obtain ⟨id, price, vis, side, ts, tif, kind⟩ := o
+  simp at hk; subst hk
+  simp [matchAgainst, Order.refresh, hq, hh] <;> omega
+
+/-- no 64-bit overflow in the helper: every quantity it produces is bounded by its inputs -/
+theorem C05_refresh_fits (o : Order) (n : Nat) (hn : n < W) (hh : o.hid < W) :
+    (o.refresh n).1.hid < W ∧ (o.refresh n).2 < W ∧ ((o.refresh n).1.vis = n ∨ (o.refresh n).1.vis = o.vis) := by
+  obtain ⟨id, price, vis, side, ts, tif, kind⟩ := o
+  cases kind <;> simp [Order.refresh, Order.hid, Kind.hidden] at hh ⊢ <;> omega
+
+example : (⟨⟨false, 1⟩, 100, 0, .sell, 1, .gtc, .iceberg 20⟩ : Order).refresh 7 =
+    (⟨⟨false, 1⟩, 100, 7, .sell, 1, .gtc, .iceberg 13⟩, 7) := by decide
+example : (⟨⟨false, 1⟩, 100, 4, .sell, 1, .gtc, .reserve 5 3 none true⟩ : Order).refresh 80 =
+    (⟨⟨false, 1⟩, 100, 80, .sell, 1, .gtc, .reserve 0 3 none true⟩, 5) := by decide
+
+/-! ### Time-in-force predicates (`TimeInForce::is_immediate / has_expiry / is_expired`, the order's
+`is_immediate / is_fill_or_kill / is_post_only`): modelled, compared with the crate on every run of E-pure. -/
+
+/-- fill-or-kill orders are immediate; an immediate order never carries an expiry -/
+theorem C05_tif_consistent (o : Order) :
+    (o.isFok = true → o.isImmediate = true) ∧ (o.isImmediate = true → o.tif.hasExpiry = false) ∧
+      (o.tif.hasExpiry = false → ∀ now close, o.tif.isExpired now close = false) := by
+  obtain ⟨id, price, vis, side, ts, tif, kind⟩ := o
+  cases tif <;> simp [Order.isFok, Order.isImmediate, Tif.isImmediate, Tif.hasExpiry, Tif.isExpired]
+
+/-- expiry is monotone in time: once expired, expired at every later instant -/
+theorem C05_tif_expired_mono (t : Tif) (now later : Nat) (close : Option Nat) (h : now ≤ later)
+    (he : t.isExpired now close = true) : t.isExpired later close = true := by
+  cases t <;> cases close <;> simp_all [Tif.isExpired] <;> omega
+
+/-- matching never changes any of the predicates -/
+theorem C05_match_keeps_predicates (o u : Order) (q : Nat) (h : (matchAgainst o q).updated = some u) :
+    u.isImmediate = o.isImmediate ∧ u.isFok = o.isFok ∧ u.isPostOnly = o.isPostOnly := by
+  obtain ⟨id, price, vis, side, ts, tif, kind⟩ := o
+  cases kind <;> simp only [matchAgainst] at h <;> (repeat' split at h) <;> simp_all <;>
+    (subst h; simp [Order.isImmediate, Order.isFok, Order.isPostOnly])
+
 end PLV.C05
